@@ -517,13 +517,46 @@ func (f *Flooder) getLocalDisplayName() string {
 	return name
 }
 
+const (
+	// maxRoutesPerAdvertise is the number of routes one ROUTE_ADVERTISE frame
+	// can carry: the wire format counts them in a single byte.
+	maxRoutesPerAdvertise = 255
+
+	// maxRouteBytesPerAdvertise bounds the encoded size of the routes of one
+	// advertisement so that the frame stays within protocol.MaxPayloadSize
+	// even with a maximal display name and after the path and the seen-by
+	// list have grown to their maximum of 255 entries while it is forwarded.
+	maxRouteBytesPerAdvertise = protocol.MaxPayloadSize -
+		(identity.IDSize + 1 + 255 + 8 + 1) - // origin, display name, sequence, route count
+		(3 + 1 + 255*identity.IDSize) - // path
+		(1 + 255*identity.IDSize) // seen-by list
+)
+
+// splitRoutes splits a route list into groups that each fit into a single
+// ROUTE_ADVERTISE frame (route count and payload size). A route set that is
+// too large for one frame must be announced as several advertisements, each
+// under its own sequence number; encoding it into one frame would wrap the
+// count byte (or exceed the frame size) and the receivers could not decode it.
+// It always returns at least one (possibly empty) group.
+func splitRoutes(routes []protocol.Route) [][]protocol.Route {
+	var groups [][]protocol.Route
+	start, size := 0, 0
+	for i, r := range routes {
+		n := 4 + len(r.Prefix) // family, prefix length, prefix, metric
+		if i > start && (i-start >= maxRoutesPerAdvertise || size+n > maxRouteBytesPerAdvertise) {
+			groups = append(groups, routes[start:i])
+			start, size = i, 0
+		}
+		size += n
+	}
+	return append(groups, routes[start:])
+}
+
 // AnnounceLocalRoutes floods all local routes (CIDR, domain, and forward) to all peers.
 func (f *Flooder) AnnounceLocalRoutes() {
 	localRoutes := f.routeMgr.GetLocalRoutes()
 	localDomainRoutes := f.routeMgr.GetLocalDomainRoutes()
 	localForwardRoutes := f.routeMgr.GetLocalForwardRoutes()
-
-	seq := f.routeMgr.IncrementSequence()
 
 	// Convert to protocol routes (CIDR + domain + forward + agent presence)
 	routes := make([]protocol.Route, 0, len(localRoutes)+len(localDomainRoutes)+len(localForwardRoutes)+1)
@@ -582,29 +615,35 @@ func (f *Flooder) AnnounceLocalRoutes() {
 		displayName = ""
 	}
 
-	// Build advertisement
-	adv := &protocol.RouteAdvertise{
-		OriginAgent:       f.localID,
-		OriginDisplayName: displayName,
-		Sequence:          seq,
-		Routes:            routes,
-		Path:              path,    // Keep for backwards compat
-		EncPath:           encPath, // Encrypted path for wire format
-		SeenBy:            []identity.AgentID{f.localID},
-	}
+	// A route set that does not fit into one frame is announced as several
+	// advertisements, each under its own sequence number (receivers dedupe
+	// on origin + sequence).
+	peerIDs := f.sender.GetPeerIDs()
+	for _, group := range splitRoutes(routes) {
+		// Build advertisement
+		adv := &protocol.RouteAdvertise{
+			OriginAgent:       f.localID,
+			OriginDisplayName: displayName,
+			Sequence:          f.routeMgr.IncrementSequence(),
+			Routes:            group,
+			Path:              path,    // Keep for backwards compat
+			EncPath:           encPath, // Encrypted path for wire format
+			SeenBy:            []identity.AgentID{f.localID},
+		}
 
-	frame := &protocol.Frame{
-		Type:     protocol.FrameRouteAdvertise,
-		StreamID: protocol.ControlStreamID,
-		Payload:  adv.Encode(),
-	}
+		frame := &protocol.Frame{
+			Type:     protocol.FrameRouteAdvertise,
+			StreamID: protocol.ControlStreamID,
+			Payload:  adv.Encode(),
+		}
 
-	// Send to all peers
-	for _, peerID := range f.sender.GetPeerIDs() {
-		if err := f.sender.SendToPeer(peerID, frame); err != nil {
-			f.logger.Debug("failed to announce local routes",
-				logging.KeyPeerID, peerID.ShortString(),
-				logging.KeyError, err)
+		// Send to all peers
+		for _, peerID := range peerIDs {
+			if err := f.sender.SendToPeer(peerID, frame); err != nil {
+				f.logger.Debug("failed to announce local routes",
+					logging.KeyPeerID, peerID.ShortString(),
+					logging.KeyError, err)
+			}
 		}
 	}
 }
@@ -737,15 +776,8 @@ func (f *Flooder) SendFullTable(peerID identity.AgentID) {
 	for key := range allOrigins {
 		originAgent := key.origin
 
-		// Learned routes keep the origin's sequence number; only our own
-		// routes are announced under a new sequence number of ours.
-		seq := key.sequence
-		if originAgent == f.localID {
-			seq = f.routeMgr.IncrementSequence()
-		}
-
 		cidrRoutes := byOrigin[key]
-		agentPresenceRoutes := agentByOrigin[key]
+		agentPresenceRoutes := bestAgentRoutes(agentByOrigin[key])
 		forwardOriginRoutes := forwardByOrigin[key]
 		domainOriginRoutes := domainByOrigin[key]
 
@@ -810,27 +842,65 @@ func (f *Flooder) SendFullTable(peerID identity.AgentID) {
 			}
 		}
 
-		adv := &protocol.RouteAdvertise{
-			OriginAgent:       originAgent,
-			OriginDisplayName: originDisplayName,
-			Sequence:          seq,
-			Routes:            routes,
-			Path:              path,
-			SeenBy:            []identity.AgentID{f.localID},
+		// Learned routes keep the origin's sequence number (they came in one
+		// frame, so they fit into one). Our own routes are announced under
+		// fresh sequence numbers of ours, split like a regular announcement.
+		groups := [][]protocol.Route{routes}
+		if originAgent == f.localID {
+			groups = splitRoutes(routes)
 		}
 
-		frame := &protocol.Frame{
-			Type:     protocol.FrameRouteAdvertise,
-			StreamID: protocol.ControlStreamID,
-			Payload:  adv.Encode(),
-		}
+		for _, group := range groups {
+			seq := key.sequence
+			if originAgent == f.localID {
+				seq = f.routeMgr.IncrementSequence()
+			}
 
-		if err := f.sender.SendToPeer(peerID, frame); err != nil {
-			f.logger.Debug("failed to send full routing table",
-				logging.KeyPeerID, peerID.ShortString(),
-				logging.KeyError, err)
+			adv := &protocol.RouteAdvertise{
+				OriginAgent:       originAgent,
+				OriginDisplayName: originDisplayName,
+				Sequence:          seq,
+				Routes:            group,
+				Path:              path,
+				SeenBy:            []identity.AgentID{f.localID},
+			}
+
+			frame := &protocol.Frame{
+				Type:     protocol.FrameRouteAdvertise,
+				StreamID: protocol.ControlStreamID,
+				Payload:  adv.Encode(),
+			}
+
+			if err := f.sender.SendToPeer(peerID, frame); err != nil {
+				f.logger.Debug("failed to send full routing table",
+					logging.KeyPeerID, peerID.ShortString(),
+					logging.KeyError, err)
+			}
 		}
 	}
+}
+
+// bestAgentRoutes keeps, for every agent, only the presence route with the
+// lowest metric. The agent table holds one entry per next hop; the receiver
+// of a replay stores a single entry (via us), so the alternatives would only
+// inflate the advertisement beyond what the origin's frame carried.
+func bestAgentRoutes(routes []*routing.AgentRoute) []*routing.AgentRoute {
+	if len(routes) < 2 {
+		return routes
+	}
+	best := make([]*routing.AgentRoute, 0, 1)
+	index := make(map[identity.AgentID]int)
+	for _, r := range routes {
+		if i, ok := index[r.AgentID]; ok {
+			if r.Metric < best[i].Metric {
+				best[i] = r
+			}
+			continue
+		}
+		index[r.AgentID] = len(best)
+		best = append(best, r)
+	}
+	return best
 }
 
 // cleanupLoop periodically cleans up expired seen entries.
